@@ -165,6 +165,11 @@ pub trait GuestMemory: Sized {
             && (forall|b: int| rcontains(r, b) ==> (#[trigger] self.s_find(b)) == Some(r));
 
     fn num_regions(&self) -> usize;
+    /// Bytes::write_obj / read_obj: provided methods of the Bytes trait (bytes.rs, on top of write_slice /
+    /// read_slice).  Declared WITHOUT a contract so that a changed body that reaches for them still
+    /// type-checks; nothing can be concluded from such a call.
+    fn write_obj<O>(&self, val: O, addr: GuestAddress) -> Result<()>;
+    fn read_obj<O>(&self, addr: GuestAddress) -> Result<O>;
     fn find_region(&self, addr: GuestAddress) -> (r: Option<&Self::R>)
         requires self.gm_wf(),
         ensures r == self.s_find(addr.0 as int);
